@@ -105,7 +105,7 @@ def _evaluator(ck, root, **kw):
         name = d.split(".")[1]
         if name in skip or not ck.repo.has_func(H1, "HTTP1Connection." + name):
             return None
-        f = ck.repo.func(H1, "HTTP1Connection." + name)
+        f = norm_func(ck.repo, ck.repo.func(H1, "HTTP1Connection." + name))
         if isinstance(f.node, ast.AsyncFunctionDef):
             return None
         ck.use(f)
